@@ -36,10 +36,13 @@ def gen_cases(ctx):
     if os.path.exists(cp):
         for c in json.load(open(cp)):
             cases.append(('corpus', dec(c['a']), dec(c['b']), ['corpus']))
-    n = 250 if ctx.tier == 'quick' else 4000
+    n = 220 if ctx.tier == 'quick' else 4000
     for _ in range(n):
         a, b, kinds = gen_nb.pair(rng)
         cases.append(('generated', a, b, kinds))
+    for k in range(len(gen_nb.FOCI) * (2 if ctx.tier == 'quick' else 40)):
+        a, b, kinds = gen_nb.focused_pair(rng, gen_nb.FOCI[k % len(gen_nb.FOCI)])
+        cases.append(('focused', a, b, kinds))
     fx = gen_nb.fixture_notebooks()
     pairs = [(x, y) for x in fx for y in fx]
     if ctx.tier == 'quick':
